@@ -26,7 +26,8 @@ def job_ops(job, plan):
     ops = [cr.create_line(job["cfg"]), "limit %d" % job["N"]]
     if rng.chance(.35):     # end-of-input signalled by in == NULL together with a non-zero (stale) ilen
         ops.append("stale %d" % rng.choice([1, 37, 300, 100000]))
-    ops.append("eoistyle %d" % rng.below(4))   # how end-of-input is said and how the drain calls look (harness/cr/trace.c after_end)
+    ops.append("eoistyle %d" % rng.below(5))   # how end-of-input is said and how the drain calls look (harness/cr/trace.c after_end)
+    ops.append("nullout %d" % rng.below(2))    # a call that asks for 0 frames passes out == NULL (soxr.h allows it)
     style = rng.below(4)
     cap = [10 ** 9, 60, 3000, 10 ** 9][style]
     ncalls = rng.choice([3, 10, 40, 150])
@@ -60,7 +61,7 @@ def oracle(job, tr):
             t = l.split()
             has_in = t[2] == "1"
             olen = int(t[6])
-            if not has_in or (t[3] == "1" and t[5] == "0"):      # in == NULL, or ilen = ~0 with an empty block
+            if cr.signals_end(t):      # in == NULL, or the ~ilen mark on a block taken whole
                 flushed = True
         elif l.startswith("> cr.eoi"):                           # end-of-input by a call without buffers
             flushed = True; olen = 0
